@@ -388,6 +388,16 @@ Theorem C17_needs_update_below_threshold : forall p c,
 Proof. exact needs_update_below_threshold. Qed.
 Print Assumptions C17_needs_update_below_threshold.
 
+(* the worker's fallback (assignment cache empty or too old; after fix 3dd3dc2):
+   for every configured scheduler it yields exactly that scheduler's component of
+   the global calculation on the same nodes and metrics — whatever the NodeShard
+   lister shows and in whatever order keys are processed (neither is an input) *)
+Theorem C17_fallback_eq_global : forall specs mg nodes m s,
+  new_manager specs = Some mg -> In s (map ss_name specs) ->
+  fallback mg nodes m s = Some (rlookup (snd (reconcile mg (list_nodes nodes) m)) s).
+Proof. exact fallback_eq_global. Qed.
+Print Assumptions C17_fallback_eq_global.
+
 (* hence the published shards are NOT always disjoint / eligible: known finding
    C17-publish-hysteresis-keeps-stale-node (22 nodes, two schedulers, one node moves) *)
 Theorem C17_published_disjoint_eligible_refuted :
